@@ -21,47 +21,337 @@ Proof.
   destruct (Z.ltb_spec ((x + y) mod 18446744073709551616) x); cbn [b2z]; lia.
 Qed.
 
+(* arithmetic core of xxTimesDouble, on plain integers *)
+Lemma xxTD_core : forall p1 p2 p3 p4 Mh Ml Nh Nl L1 c1 L2 c2 AB,
+  AB = p1 * W64 + (p2 + p3) * R + p4 -> 0 <= AB < W64 * W64 ->
+  0 <= p1 -> p2 = Mh * R + Ml -> p3 = Nh * R + Nl -> 0 <= Mh -> 0 <= Nh ->
+  L1 + W64 * c1 = p4 + Ml * R -> L2 + W64 * c2 = L1 + Nl * R ->
+  0 <= L2 < W64 -> 0 <= c1 <= 1 -> 0 <= c2 <= 1 ->
+  (p1 + c1 + Mh + c2 + Nh) * W64 + L2 = AB /\ 0 <= p1 + c1 + Mh + c2 + Nh < W64.
+Proof.
+  intros p1 p2 p3 p4 Mh Ml Nh Nl L1 c1 L2 c2 AB EAB HAB Hp1 EM EN HMh HNh C1 C2 B2 Hc1 Hc2.
+  assert (E : (p1 + c1 + Mh + c2 + Nh) * W64 + L2 = AB).
+  { subst AB p2 p3. unfold W64, R in *. lia. }
+  split; [exact E|]. unfold W64 in *. lia.
+Qed.
+
 (* dword.c xxTimesDouble: the full 128-bit product of two 64-bit words *)
 Lemma xxTimesDouble_spec : forall A B, 0 <= A < W64 -> 0 <= B < W64 ->
   fst (xxTimesDouble A B) * W64 + snd (xxTimesDouble A B) = A * B /\
   0 <= snd (xxTimesDouble A B) < W64 /\ 0 <= fst (xxTimesDouble A B) < W64.
 Proof.
-  intros A B HA HB. unfold xxTimesDouble. cbv zeta.
+  intros A B HA HB.
+  assert (HAh : 0 <= A / R < R) by (unfold W64, R in *; lia).
+  assert (HAl : 0 <= A mod R < R) by (unfold R; lia).
+  assert (HBh : 0 <= B / R < R) by (unfold W64, R in *; lia).
+  assert (HBl : 0 <= B mod R < R) by (unfold R; lia).
+  assert (EA : A = A / R * R + A mod R) by (unfold R; lia).
+  assert (EB : B = B / R * R + B mod R) by (unfold R; lia).
+  assert (HAB : 0 <= A * B < W64 * W64) by (split; [apply Z.mul_nonneg_nonneg; lia | apply Z.mul_lt_mono_nonneg; lia]).
+  unfold xxTimesDouble. cbv zeta.
   rewrite !shiftr32. rewrite (land_R1 A), (land_R1 B) by lia.
-  set (Ah := A / R). set (Al := A mod R). set (Bh := B / R). set (Bl := B mod R).
-  assert (HAh : 0 <= Ah < R) by (unfold Ah, W64, R in *; lia).
-  assert (HAl : 0 <= Al < R) by (unfold Al, R; lia).
-  assert (HBh : 0 <= Bh < R) by (unfold Bh, W64, R in *; lia).
-  assert (HBl : 0 <= Bl < R) by (unfold Bl, R; lia).
-  assert (EA : A = Ah * R + Al) by (unfold Ah, Al, R; lia).
-  assert (EB : B = Bh * R + Bl) by (unfold Bh, Bl, R; lia).
+  revert HAh HAl HBh HBl EA EB.
+  generalize (A / R) (A mod R) (B / R) (B mod R). intros Ah Al Bh Bl HAh HAl HBh HBl EA EB.
   pose proof (mul_bound Ah Bh HAh HBh) as P1. pose proof (mul_bound Al Bh HAl HBh) as P2.
   pose proof (mul_bound Ah Bl HAh HBl) as P3. pose proof (mul_bound Al Bl HAl HBl) as P4.
   assert (EAB : A * B = (Ah * Bh) * W64 + (Al * Bh + Ah * Bl) * R + Al * Bl).
   { rewrite EA at 1. rewrite EB at 1. change W64 with (R * R). ring. }
-  set (p1 := Ah * Bh) in *. set (p2 := Al * Bh) in *. set (p3 := Ah * Bl) in *. set (p4 := Al * Bl) in *.
+  clear EA EB HA HB.
+  revert HAB P1 P2 P3 P4 EAB. generalize (A * B).
+  generalize (Ah * Bh) (Al * Bh) (Ah * Bl) (Al * Bl). clear.
+  intros p1 p2 p3 p4 AB HAB P1 P2 P3 P4 EAB.
   rewrite (u64_id p1), (u64_id p2), (u64_id p3), (u64_id p4) by (unfold W64, R in *; lia).
-  rewrite ?shiftr32. rewrite (land_R1 p2), (land_R1 p3) by lia. rewrite !shiftl32.
-  set (Mh := p2 / R). set (Ml := p2 mod R). set (Nh := p3 / R). set (Nl := p3 mod R).
-  assert (HM : p2 = Mh * R + Ml /\ 0 <= Ml < R /\ 0 <= Mh < R) by (unfold Mh, Ml, R in *; lia).
-  assert (HN : p3 = Nh * R + Nl /\ 0 <= Nl < R /\ 0 <= Nh < R) by (unfold Nh, Nl, R in *; lia).
-  destruct HM as (EM & BMl & BMh). destruct HN as (EN & BNl & BNh).
+  rewrite (land_R1 p2), (land_R1 p3) by lia. rewrite !shiftl32.
+  assert (HM : p2 = p2 / R * R + p2 mod R /\ 0 <= p2 mod R < R /\ 0 <= p2 / R) by (unfold R in *; lia).
+  assert (HN : p3 = p3 / R * R + p3 mod R /\ 0 <= p3 mod R < R /\ 0 <= p3 / R) by (unfold R in *; lia).
+  revert HM HN. generalize (p2 / R) (p2 mod R) (p3 / R) (p3 mod R). intros Mh Ml Nh Nl (EM & BMl & BMh) (EN & BNl & BNh).
   rewrite (u64_id (Ml * R)), (u64_id (Nl * R)) by (unfold W64, R in *; lia).
   destruct (add_carry p4 (Ml * R) ltac:(unfold W64, R in *; lia) ltac:(unfold W64, R in *; lia)) as (C1 & B1).
-  set (L1 := u64 (p4 + Ml * R)) in *. set (c1 := b2z (L1 <? p4)) in *.
-  assert (Hc1 : 0 <= c1 <= 1) by (unfold c1; destruct (L1 <? p4); cbn [b2z]; lia).
+  revert C1 B1. generalize (u64 (p4 + Ml * R)). intros L1 C1 B1.
+  assert (Hc1 : 0 <= b2z (L1 <? p4) <= 1) by (destruct (L1 <? p4); cbn [b2z]; lia).
+  revert C1 Hc1. generalize (b2z (L1 <? p4)). intros c1 C1 Hc1.
   destruct (add_carry L1 (Nl * R) B1 ltac:(unfold W64, R in *; lia)) as (C2 & B2).
-  set (L2 := u64 (L1 + Nl * R)) in *. set (c2 := b2z (L2 <? L1)) in *.
-  assert (Hc2 : 0 <= c2 <= 1) by (unfold c2; destruct (L2 <? L1); cbn [b2z]; lia).
+  revert C2 B2. generalize (u64 (L1 + Nl * R)). intros L2 C2 B2.
+  assert (Hc2 : 0 <= b2z (L2 <? L1) <= 1) by (destruct (L2 <? L1); cbn [b2z]; lia).
+  revert C2 Hc2. generalize (b2z (L2 <? L1)). intros c2 C2 Hc2.
   cbn [fst snd].
-  (* the high word never wraps: A*B < W64^2 *)
-  assert (HAB : A * B < W64 * W64) by (apply Z.mul_lt_mono_nonneg; lia).
-  assert (Etot : (p1 + c1 + Mh + c2 + Nh) * W64 + L2 = A * B).
-  { rewrite EAB, EM, EN. change W64 with (R * R) in *. unfold R in *. lia. }
-  assert (Hhi : 0 <= p1 + c1 + Mh + c2 + Nh < W64) by (unfold W64 in *; lia).
+  destruct (xxTD_core p1 p2 p3 p4 Mh Ml Nh Nl L1 c1 L2 c2 AB EAB HAB ltac:(lia) EM EN BMh BNh
+              ltac:(lia) ltac:(lia) B2 Hc1 Hc2) as (Etot & Hhi).
   rewrite (u64_id (p1 + c1)) by (unfold W64 in *; lia).
   rewrite (u64_id (p1 + c1 + Mh)) by (unfold W64 in *; lia).
   rewrite (u64_id (p1 + c1 + Mh + c2)) by (unfold W64 in *; lia).
   rewrite (u64_id (p1 + c1 + Mh + c2 + Nh)) by exact Hhi.
   split; [exact Etot|]. split; [exact B2 | exact Hhi].
+Qed.
+
+(* ------------------------------------------------------------------ xxModDouble *)
+Lemma mod_combine : forall rh rl d, 0 < d ->
+  ((rh mod d) * (W64 mod d) + rl mod d) mod d = (rh * W64 + rl) mod d.
+Proof.
+  intros rh rl d Hd.
+  rewrite Z.add_mod by lia. rewrite <- Z.mul_mod by lia. rewrite Z.mod_mod by lia.
+  rewrite <- Z.add_mod by lia. reflexivity.
+Qed.
+
+Lemma xxMod_step : forall rh rl d, R <= d < H63 -> 0 <= rh < W64 -> 0 <= rl < W64 ->
+  let rrh := rh mod d in let rrl := rl mod d in
+  let tt := xxTimesDouble rrh (W64 mod d) in
+  let rl' := u64 (snd tt + rrl) in
+  let rh' := u64 (fst tt + b2z (rl' <? rrl)) in
+  rh' * W64 + rl' = rrh * (W64 mod d) + rrl /\ 0 <= rl' < W64 /\ 0 <= rh' < W64 /\ 2 * rh' <= rh /\
+  (rh = 0 -> rh' = 0 /\ rl' < d).
+Proof.
+  intros rh rl d Hd Hrh Hrl. cbv zeta.
+  assert (Brrh : 0 <= rh mod d < d) by (apply Z.mod_pos_bound; unfold R in *; lia).
+  assert (Brrl : 0 <= rl mod d < d) by (apply Z.mod_pos_bound; unfold R in *; lia).
+  assert (BrB : 0 <= W64 mod d < d) by (apply Z.mod_pos_bound; unfold R in *; lia).
+  assert (Hle : rh mod d <= rh) by (apply Z.mod_le; unfold R in *; lia).
+  destruct (xxTimesDouble_spec (rh mod d) (W64 mod d) ltac:(unfold W64, H63 in *; lia) ltac:(unfold W64, H63 in *; lia))
+    as (Et & Btl & Bth).
+  revert Et Btl Bth. generalize (xxTimesDouble (rh mod d) (W64 mod d)). intros [th tl]. cbn [fst snd]. intros Et Btl Bth.
+  rewrite (Z.add_comm tl (rl mod d)).
+  destruct (add_carry (rl mod d) tl ltac:(unfold W64, H63 in *; lia) Btl) as (C1 & B1).
+  revert C1 B1. generalize (u64 (rl mod d + tl)). intros rl' C1 B1.
+  assert (Hc : 0 <= b2z (rl' <? rl mod d) <= 1) by (destruct (rl' <? rl mod d); cbn [b2z]; lia).
+  revert C1 Hc. generalize (b2z (rl' <? rl mod d)). intros c C1 Hc.
+  assert (Hprod : 0 <= (rh mod d) * (W64 mod d) <= rh * (d - 1)).
+  { split; [apply Z.mul_nonneg_nonneg; lia|]. apply Z.mul_le_mono_nonneg; lia. }
+  revert Et Hprod. generalize ((rh mod d) * (W64 mod d)). intros pr Et Hprod.
+  assert (Hrd : rh * (d - 1) <= rh * (H63 - 1)) by (apply mul_mono_l; lia).
+  assert (Hno : th + c < W64).
+  { assert ((th + c) * W64 + rl' = pr + rl mod d) by lia. unfold W64, H63 in *. lia. }
+  rewrite (u64_id (th + c)) by lia.
+  split; [lia|]. split; [exact B1|]. split; [lia|]. split.
+  - assert ((th + c) * W64 + rl' = pr + rl mod d) by lia. unfold W64, H63 in *. lia.
+  - intros E0. subst rh. rewrite Z.mod_0_l in * by (unfold R in *; lia).
+    assert (pr = 0) by lia. subst pr. unfold W64, H63 in *. lia.
+Qed.
+
+Lemma xxMod_loop_done : forall fuel rl d rB, (1 <= fuel)%nat -> 0 <= rl < d ->
+  xxMod_loop fuel 0 rl d rB = Some rl.
+Proof.
+  intros [|f] rl d rB Hf Hrl; [lia|]. cbn [xxMod_loop]. cbn [Z.eqb negb orb].
+  destruct (Z.leb_spec d rl); [lia | reflexivity].
+Qed.
+
+Lemma xxMod_loop_spec : forall k fuel rh rl d, (k + 2 <= fuel)%nat -> R <= d < H63 ->
+  0 <= rh < 2 ^ Z.of_nat k -> rh < W64 -> 0 <= rl < W64 ->
+  xxMod_loop fuel rh rl d (W64 mod d) = Some ((rh * W64 + rl) mod d).
+Proof.
+  induction k as [|k IH]; intros fuel rh rl d Hf Hd Hrh Hrh2 Hrl.
+  - change (2 ^ Z.of_nat 0) with 1 in Hrh. assert (rh = 0) by lia. subst rh.
+    destruct fuel as [|f]; [lia|]. cbn [xxMod_loop]. cbn [Z.eqb negb orb].
+    destruct (Z.leb_spec d rl) as [Hge|Hlt].
+    + pose proof (xxMod_step 0 rl d Hd ltac:(unfold W64; lia) Hrl) as S. cbv zeta in S.
+      destruct (xxTimesDouble (0 mod d) (W64 mod d)) as [th tl]. cbn [fst snd] in *.
+      destruct S as (E & B1 & B2 & _ & Hz). destruct (Hz eq_refl) as (Ez & Hlt).
+      rewrite Ez. rewrite xxMod_loop_done by lia.
+      f_equal. rewrite Ez in E. rewrite Z.mod_0_l in E by (unfold R in *; lia).
+      cbn [Z.mul Z.add] in *. lia.
+    + f_equal. cbn [Z.mul Z.add]. symmetry. apply Z.mod_small. lia.
+  - destruct fuel as [|f]; [lia|]. cbn [xxMod_loop].
+    destruct (negb (rh =? 0) || (d <=? rl)) eqn:Ec.
+    + pose proof (xxMod_step rh rl d Hd ltac:(lia) Hrl) as S. cbv zeta in S.
+      destruct (xxTimesDouble (rh mod d) (W64 mod d)) as [th tl]. cbn [fst snd] in *.
+      destruct S as (E & B1 & B2 & Hhalf & _).
+      rewrite Nat2Z.inj_succ, Z.pow_succ_r in Hrh by lia.
+      rewrite (IH f (u64 (th + b2z (u64 (tl + rl mod d) <? rl mod d))) (u64 (tl + rl mod d)) d);
+        [| lia | exact Hd | lia | lia | exact B1].
+      f_equal. rewrite E. apply mod_combine. unfold R in *. lia.
+    + assert (rh = 0 /\ rl < d) by lia. destruct H as (-> & Hlt).
+      f_equal. cbn [Z.mul Z.add]. symmetry. apply Z.mod_small. lia.
+Qed.
+
+Lemma xxModDouble_spec : forall nh nl d, R <= d < H63 -> 0 <= nh < R -> 0 <= nl < W64 ->
+  xxModDouble nh nl d = Some ((nh * W64 + nl) mod d).
+Proof.
+  intros nh nl d Hd Hnh Hnl. unfold xxModDouble.
+  destruct (Z.eqb_spec d 1); [unfold R in *; lia|].
+  destruct (Z.ltb_spec d R); [lia|].
+  assert (ErB : (W64 - 1 - (d - 1)) mod d = W64 mod d).
+  { replace (W64 - 1 - (d - 1)) with (W64 + (-1) * d) by lia. apply Z.mod_add. unfold R in *. lia. }
+  rewrite ErB.
+  apply (xxMod_loop_spec 32 400); [lia | exact Hd | | unfold W64, R in *; lia | exact Hnl].
+  change (2 ^ Z.of_nat 32) with R. exact Hnh.
+Qed.
+
+(* ------------------------------------------------------------------ bintModi *)
+Lemma modi_small_spec : forall ds b, dok ds -> ds <> [] -> 1 <= b < R ->
+  modi_small ds b (R mod b) = lval ds mod b.
+Proof.
+  induction ds as [|ai t IH]; intros b Hd Hne Hb; [congruence|].
+  apply dok_cons in Hd. destruct Hd as [Hai Ht].
+  destruct t as [|a2 t'].
+  - cbn [modi_small lval]. f_equal. lia.
+  - change (modi_small (ai :: a2 :: t') b (R mod b)) with
+      (let acc := modi_small (a2 :: t') b (R mod b) in
+       let acc := u64 (acc * (R mod b)) mod b in
+       let tmp := s64 (acc - b + ai mod b) in
+       let tmp := if tmp <? 0 then s64 (tmp + b) else tmp in u64 tmp).
+    cbv zeta. rewrite (IH b Ht ltac:(congruence) Hb).
+    set (x := lval (a2 :: t')).
+    assert (Bx : 0 <= x mod b < b) by (apply Z.mod_pos_bound; lia).
+    assert (Bd : 0 <= R mod b < b) by (apply Z.mod_pos_bound; lia).
+    assert (Bp : 0 <= x mod b * (R mod b) < W64).
+    { split; [apply Z.mul_nonneg_nonneg; lia|].
+      assert (x mod b * (R mod b) < b * b) by (apply Z.mul_lt_mono_nonneg; lia).
+      assert (b * b <= R * R) by (apply Z.mul_le_mono_nonneg; lia). change W64 with (R * R). lia. }
+    rewrite (u64_id (x mod b * (R mod b))) by exact Bp.
+    rewrite <- Z.mul_mod by lia.
+    assert (By : 0 <= (x * R) mod b < b) by (apply Z.mod_pos_bound; lia).
+    assert (Ba : 0 <= ai mod b < b) by (apply Z.mod_pos_bound; lia).
+    set (y := (x * R) mod b) in *. set (z := ai mod b) in *.
+    assert (Egoal : lval (ai :: a2 :: t') mod b = (y + z) mod b).
+    { change (lval (ai :: a2 :: t')) with (ai + R * x). unfold y, z.
+      rewrite <- Z.add_mod by lia. f_equal. lia. }
+    rewrite Egoal. clearbody y z. clear - By Ba Hb.
+    rewrite (s64_id (y - b + z)) by (unfold H63, R in *; lia).
+    destruct (Z.ltb_spec (y - b + z) 0) as [Hn|Hp].
+    + rewrite s64_id by (unfold H63, R in *; lia). rewrite u64_id by (unfold W64, R in *; lia).
+      replace (y - b + z + b) with (y + z) by lia. symmetry. apply Z.mod_small. lia.
+    + rewrite u64_id by (unfold W64, R in *; lia).
+      symmetry. replace (y + z) with ((y - b + z) + 1 * b) by lia. rewrite Z.mod_add by lia. apply Z.mod_small. lia.
+Qed.
+
+Lemma modi_big_spec : forall ds b, dok ds -> ds <> [] -> R <= b < H63 ->
+  modi_big ds b = Some (lval ds mod b).
+Proof.
+  induction ds as [|ai t IH]; intros b Hd Hne Hb; [congruence|].
+  apply dok_cons in Hd. destruct Hd as [Hai Ht].
+  destruct t as [|a2 t'].
+  - cbn [modi_big lval]. f_equal. replace (ai + R * 0) with ai by lia. symmetry. apply Z.mod_small. lia.
+  - change (modi_big (ai :: a2 :: t') b) with
+      (match modi_big (a2 :: t') b with
+       | None => None
+       | Some acc =>
+           let hi := Z.shiftr acc 32 in
+           let lo := u64 (Z.shiftl acc 32) in
+           match xxModDouble hi lo b with
+           | None => None
+           | Some rem =>
+               let tmp := s64 (rem - s64 b + ai) in
+               let tmp := if tmp <? 0 then s64 (tmp + b) else tmp in
+               Some (u64 tmp)
+           end
+       end).
+    rewrite (IH b Ht ltac:(congruence) Hb). cbv zeta.
+    set (x := lval (a2 :: t')).
+    assert (Bx : 0 <= x mod b < b) by (apply Z.mod_pos_bound; unfold R in *; lia).
+    set (acc := x mod b) in *.
+    rewrite shiftr32, shiftl32.
+    assert (Ehl : acc / R * W64 + u64 (acc * R) = acc * R /\ 0 <= u64 (acc * R) < W64 /\ 0 <= acc / R < R).
+    { unfold u64. change W64 with (R * R). rewrite Z.mul_mod_distr_r by (unfold R; lia).
+      unfold H63, R in *. lia. }
+    destruct Ehl as (Ehl & Blo & Bhi).
+    rewrite (xxModDouble_spec (acc / R) (u64 (acc * R)) b Hb Bhi Blo). rewrite Ehl.
+    assert (By : 0 <= (acc * R) mod b < b) by (apply Z.mod_pos_bound; unfold R in *; lia).
+    set (y := (acc * R) mod b) in *.
+    rewrite (s64_id b) by (unfold H63, R in *; lia).
+    rewrite (s64_id (y - b + ai)) by (unfold H63, R in *; lia).
+    assert (Egoal : lval (ai :: a2 :: t') mod b = (y + ai) mod b).
+    { change (lval (ai :: a2 :: t')) with (ai + R * x). unfold y, acc.
+      rewrite Z.mul_mod_idemp_l by (unfold R in *; lia).
+      rewrite Z.add_mod_idemp_l by (unfold R in *; lia). f_equal. lia. }
+    rewrite Egoal. f_equal. clearbody y. clear - By Hai Hb.
+    destruct (Z.ltb_spec (y - b + ai) 0) as [Hn|Hp].
+    + rewrite s64_id by (unfold H63, R in *; lia). rewrite u64_id by (unfold W64, H63, R in *; lia).
+      replace (y - b + ai + b) with (y + ai) by lia. symmetry. apply Z.mod_small. lia.
+    + rewrite u64_id by (unfold W64, H63, R in *; lia).
+      symmetry. replace (y + ai) with ((y - b + ai) + 1 * b) by lia.
+      rewrite Z.mod_add by (unfold R in *; lia). apply Z.mod_small. unfold R in *. lia.
+Qed.
+
+Lemma bintModi_spec : forall a b, norm a -> 0 <= val a -> 1 <= b < H63 ->
+  exists r, bintModi a b = Some r /\ val r = val a mod b /\ norm r.
+Proof.
+  intros a b Na Ha Hb.
+  assert (Bm : 0 <= val a mod b < b) by (apply Z.mod_pos_bound; lia).
+  destruct a as [n|neg ds].
+  - cbn [val] in *. pose proof (imm_range n Na) as Rn.
+    unfold bintModi. rewrite u64_id by (unfold W64, H63 in *; lia).
+    rewrite s64_id by (unfold H63 in *; lia).
+    destruct (bintNew_spec (n mod b) ltac:(unfold H63 in *; lia)) as (V & N).
+    eexists. split; [reflexivity|]. split; [exact V | exact N].
+  - pose proof (norm_sto_len _ _ Na) as L2. pose proof Na as Na'. apply norm_sto in Na'.
+    destruct Na' as (Dd & Ld & Vd). unfold IMM_MAX in Vd.
+    assert (Nd : ds <> []) by (intros ->; cbn in L2; lia).
+    assert (neg = false) by (destruct neg; [cbn [val] in Ha; lia | reflexivity]). subst neg.
+    cbn [val] in *. unfold bintModi.
+    destruct (Z.ltb_spec b R) as [Hs|Hbig].
+    + rewrite modi_small_spec by (auto; lia).
+      rewrite s64_id by (unfold H63, R in *; lia).
+      destruct (bintNew_spec (lval ds mod b) ltac:(unfold H63, R in *; lia)) as (V & N).
+      eexists. split; [reflexivity|]. split; [exact V | exact N].
+    + rewrite modi_big_spec by (auto; lia).
+      rewrite s64_id by (unfold H63 in *; lia).
+      destruct (bintNew_spec (lval ds mod b) ltac:(unfold H63 in *; lia)) as (V & N).
+      eexists. split; [reflexivity|]. split; [exact V | exact N].
+Qed.
+
+(* the remainder with the sign of the dividend, for every divisor *)
+Theorem mod_exact : forall a b, norm a -> norm b -> val b <> 0 ->
+  exists r, bintMod a b = Some r /\ val r = Z.rem (val a) (val b) /\ norm r.
+Proof.
+  intros a b Na Nb Hb. unfold bintMod.
+  destruct (sign_tests_exact a Na) as (Ena & _). destruct (sign_tests_exact b Nb) as (Enb & _).
+  rewrite Ena, Enb.
+  set (a' := if val a <? 0 then bintNegate a else a).
+  set (b' := if val b <? 0 then bintNegate b else b).
+  assert (Ha' : val a' = Z.abs (val a) /\ norm a').
+  { unfold a'. destruct (Z.ltb_spec (val a) 0).
+    - destruct (negate_exact a Na) as (V & N). rewrite V. split; [lia | exact N].
+    - split; [lia | exact Na]. }
+  assert (Hb' : val b' = Z.abs (val b) /\ norm b').
+  { unfold b'. destruct (Z.ltb_spec (val b) 0).
+    - destruct (negate_exact b Nb) as (V & N). rewrite V. split; [lia | exact N].
+    - split; [lia | exact Nb]. }
+  destruct Ha' as (Va' & Na'). destruct Hb' as (Vb' & Nb').
+  pose proof (Z.rem_mod (val a) (val b) Hb) as Rm.
+  (* the unsigned remainder *)
+  assert (Hr : exists r, match b' with
+                         | Imm bi => bintModi a' (u64 bi)
+                         | Sto _ _ => if bintLength b' <? 64 then bintModi a' (bintToULong b')
+                                      else Some (snd (bintDivide a' b'))
+                         end = Some r /\ val r = Z.abs (val a) mod Z.abs (val b) /\ norm r).
+  { destruct b' as [bi|nb db] eqn:Eb'.
+    - cbn [val] in Vb'. pose proof (imm_range bi Nb') as Rb.
+      rewrite u64_id by (unfold W64, H63 in *; lia).
+      destruct (bintModi_spec a' bi Na' ltac:(lia) ltac:(lia)) as (r & E & V & N).
+      exists r. split; [exact E|]. split; [rewrite V, Va', Vb'; reflexivity | exact N].
+    - rewrite (length_exact _ Nb'). rewrite Vb'. rewrite Z.abs_involutive.
+      destruct (bitlen_bounds (Z.abs (val b)) ltac:(lia)) as (L1 & L2 & L3).
+      destruct (Z.ltb_spec (bitlen (Z.abs (val b))) 64) as [Hs|Hbig].
+      + (* two places, below 2^63 *)
+        assert (Hlt : Z.abs (val b) < H63).
+        { assert (2 ^ bitlen (Z.abs (val b)) <= 2 ^ 63) by (apply Z.pow_le_mono_r; lia).
+          change (2 ^ 63) with H63 in *. lia. }
+        pose proof (norm_sto_len _ _ Nb') as Ll. pose proof Nb' as Nb2. apply norm_sto in Nb2.
+        destruct Nb2 as (Dd & Ld & Vd). unfold IMM_MAX in Vd.
+        assert (Enb0 : nb = false) by (destruct nb; [cbn [val] in Vb'; lia | reflexivity]). subst nb.
+        cbn [val] in Vb'.
+        assert (Eu : bintToULong (Sto false db) = lval db).
+        { destruct db as [|d0 [|d1 [|d2 t]]]; [cbn in Ll; lia | cbn in Ll; lia | |].
+          - apply dok_cons in Dd. destruct Dd as (B0 & Dd). apply dok_cons in Dd. destruct Dd as (B1 & _).
+            assert (E0 : znth 0 [d0; d1] = d0) by reflexivity.
+            assert (E1 : znth 1 [d0; d1] = d1) by reflexivity.
+            unfold bintToULong. rewrite E0, E1, shiftl32. cbn [lval].
+            replace (d0 + R * (d1 + R * 0)) with (d0 + d1 * R) by lia.
+            apply u64_id. unfold W64, R in *. lia.
+          - exfalso. pose proof (last_nz_ge _ Dd ltac:(congruence) Ld) as G.
+            assert (Rp 2 <= Rp (length (d0 :: d1 :: d2 :: t) - 1)) by (apply Rp_mono; cbn [length]; lia).
+            rewrite Rp_2 in *. unfold H63 in *. lia. }
+        rewrite Eu.
+        destruct (bintModi_spec a' (lval db) Na' ltac:(lia) ltac:(lia)) as (r & E & V & N).
+        exists r. split; [exact E|]. split; [rewrite V, Va', Vb'; reflexivity | exact N].
+      + assert (Nz : val (Sto nb db) <> 0) by lia.
+        pose proof (divide_exact a' (Sto nb db) Na' Nb' Nz) as D. cbv zeta in D.
+        destruct D as (_ & _ & _ & _ & Er & _ & Nr).
+        eexists. split; [reflexivity|]. split; [|exact Nr].
+        rewrite Er, Va', Vb'. apply Z.rem_mod_nonneg; lia. }
+  destruct Hr as (r & Er & Vr & Nr). rewrite Er.
+  destruct (Z.ltb_spec (val a) 0) as [La|La].
+  - unfold xintNegate. destruct (negate_exact r Nr) as (V & N).
+    eexists. split; [reflexivity|]. split; [|exact N]. rewrite V, Vr, Rm. lia.
+  - eexists. split; [reflexivity|]. split; [|exact Nr]. rewrite Vr, Rm.
+    destruct (Z.eq_dec (val a) 0) as [Ez|Nz]; [rewrite Ez; change (Z.abs 0) with 0; change (Z.sgn 0) with 0; rewrite Z.mod_0_l by lia; reflexivity | lia].
 Qed.
